@@ -64,13 +64,15 @@ def cases(rng, tier):
 			for body in bodies:
 				n = len(b''.join(body))
 				cls = [(), (b'%d' % n,), (b'%d' % max(n - 1, 0),), (b'%d' % (n + 3),), (b'%d' % n, b'%d' % n), (b'%d' % n, b'%d' % (n + 1)), (b'+%d' % n,), (b'-1',), (b'abc',), (b' %d ' % n,), (b'0%d' % n,), (b'%d\xa0' % n,), (b'1_0',), (b'',), (b'%d;x=1' % n,), (b'%d;' % n,), (b'%d ; q=1' % n,), (b'%d, %d' % (n, n),), (b'"%d"' % n,), (b'%d.0' % n,), (b'0x%x' % n,)]
-				tes = [None, b'chunked', b'Chunked', b'CHUNKED', b'gzip', b'gzip, chunked', b'identity', b'chunked ', b'x-unknown']
+				tes = [None, b'chunked', b'Chunked', b'CHUNKED', b'gzip', b'gzip, chunked', b'identity', b'chunked ', b'x-unknown', b'=?utf-8?q?chunked?=', b'=?iso-8859-1?b?Y2h1bmtlZA==?=']
 				trs = [(None, ()), (b'X-T', ((b'X-T', b'v'),)), (b'X-T', ()), (None, ((b'X-T', b'v'),)), (b'X-T', ((b'X-T', b'v'), (b'X-U', b'w'))),
 					(b'Content-Length', ((b'Content-Length', b'99'),)), (b'X-T', ((b'Content-Length', b'99'),)), (b'transfer-encoding', ((b'Transfer-Encoding', b'chunked'),)),
 					(b'Trailer', ((b'Trailer', b'X'),)), (b'X-T, X-U', ((b'x-u', b'1'), (b'X-T', b'2'), (b'x-t', b'3'))), (b'X-T', ((b'X-T', b'v'), (b'Host', b'evil'))), (b'Host', ((b'Host', b'evil'),)),
 					# names with a percent sign (a token character; messages are formatted with %), names of fields the message already has
 					(b'X-T', ((b'X-T', b'a'), (b'Evil', b'x'), (b'', b' y'))), (b'X-T, X-U', ((b'X-T', b'a'), (b'X-U', b'x'), (b'', b'\ty'))), (b'X-T', ((b'X-T', b'a'), (b'', b' b'), (b'Evil', b'x'))),
-					(None, ((b'X-%s', b'v'),)), (b'X-T', ((b'X-T', b'v'), (b'X-Load-%', b'1'))), (b'%x', ((b'%x', b'1'),)), (None, ((b'Host', b'evil'),)), (b'X-T', ((b'host', b'evil'),)), (None, ((b'Transfer-Encoding', b'chunked'),))]
+					(None, ((b'X-%s', b'v'),)), (b'X-T', ((b'X-T', b'v'), (b'X-Load-%', b'1'))), (b'%x', ((b'%x', b'1'),)), (None, ((b'Host', b'evil'),)), (b'X-T', ((b'host', b'evil'),)), (None, ((b'Transfer-Encoding', b'chunked'),)),
+					# announced names that only LOOK like the field sent once case mapping / compatibility mapping / an encoded word is applied
+					(b'=?utf-8?q?=EF=AC=81eld?=', ((b'Field', b'x'),)), (b'\xdfl-Id', ((b'Ssl-Id', b'x'),)), (b'X-\xb5', ((b'X-\xce\x9c', b'v'),))]
 				for cl in cls:
 					for te in tes:
 						for th, tr in (trs if te else trs[:1]):
